@@ -154,6 +154,17 @@ class Unit:
 
     def source(self, path):
         if path not in self.sources:
+            if path.startswith('@expanded/'):
+                # the macro expansion of /repo's current tree (vx/expand.py)
+                import expand
+                try:
+                    self.sources[path] = Source(path, expand.get(self.repo, path.split('/', 1)[1]))
+                except expand.ExpandError as e:
+                    ge = GenError('%s' % e)
+                    ge.derive_only = e.derive_only
+                    ge.output = e.output
+                    raise ge
+                return self.sources[path]
             full = os.path.join(self.repo, path)
             if not os.path.exists(full):
                 raise GenError('lost anchor: file %s missing' % path)
@@ -295,6 +306,11 @@ class Unit:
         where = '%s:%s' % (path, item)
         try:
             rs = self._ruleset(opts.get('rules'))
+            if kind == 'fn' and any(r.rid == 'X-SYNCLOOP' for r in rs):
+                # after X-XPAND (paths), before everything that looks inside the loop body
+                k = next(i for i, r in enumerate(rs) if r.rid == 'X-SYNCLOOP')
+                pre = RULES.apply_for_scan([r for r in rs[:k] if r.rid == 'X-XPAND'], text)
+                rs = rs[:k] + RULES.sync_rules(pre) + rs[k + 1:]
             if kind == 'fn' and any(r.rid == 'X-WIN' for r in rs):
                 rs = [r for r in rs if r.rid != 'X-WIN'] + RULES.win_rules(text)
             new, lmap = apply_rules(rs, text, first_line, self.rule_log, where)
